@@ -1,3 +1,102 @@
 package main
 
-func workerMain(kind string, args []string) {}
+import (
+	"fmt"
+	"os"
+	"runtime"
+	"runtime/debug"
+	"strconv"
+
+	"verifharness/internal/iso"
+
+	"github.com/wolimst/lib-secs2-hsms-go/pkg/parser/hsms"
+)
+
+// C07 linear allocation bound: 1 MiB + 2048 bytes per input byte.
+const c07Const = 1 << 20
+const c07PerByte = 2048
+
+// workerMain is the entry point of a child worker process.
+//
+//	vcheck -worker hsms [maxstack=<bytes>] <batch> <progress> <result>
+//	vcheck -worker sml  [maxstack=<bytes>] <batch> <progress> <result>
+//	vcheck -worker canary-oom|canary-spin ...   (isolation-layer self tests)
+func workerMain(kind string, args []string) {
+	for _, a := range args {
+		if len(a) > 9 && a[:9] == "maxstack=" {
+			if n, err := strconv.Atoi(a[9:]); err == nil && n > 0 {
+				debug.SetMaxStack(n)
+			}
+		}
+	}
+	w, err := iso.OpenWorker(args)
+	if err != nil {
+		fmt.Fprintln(os.Stderr, "worker:", err)
+		os.Exit(3)
+	}
+	switch kind {
+	case "hsms":
+		hsmsWorker(w)
+	case "sml":
+		smlWorker(w)
+	case "canary-oom":
+		w.Begin(0)
+		var keep [][]byte
+		for i := 0; i < 64; i++ {
+			b := make([]byte, 1<<30)
+			for j := 0; j < len(b); j += 4096 {
+				b[j] = 1
+			}
+			keep = append(keep, b)
+		}
+		fmt.Println(len(keep))
+	case "canary-spin":
+		w.Begin(0)
+		for {
+			runtime.Gosched()
+		}
+	default:
+		fmt.Fprintln(os.Stderr, "worker: unknown kind", kind)
+		os.Exit(3)
+	}
+	w.Finish()
+}
+
+func hsmsWorker(w *iso.Worker) {
+	var m0, m1 runtime.MemStats
+	for i, j := range w.Jobs {
+		w.Begin(i)
+		in := j.Input
+		escaped := ""
+		ok := false
+		runtime.ReadMemStats(&m0)
+		func() {
+			defer func() {
+				if r := recover(); r != nil {
+					escaped = fmt.Sprint(r)
+				}
+			}()
+			_, ok = hsms.Parse(in)
+		}()
+		runtime.ReadMemStats(&m1)
+		delta := m1.TotalAlloc - m0.TotalAlloc
+		bound := uint64(c07Const + c07PerByte*len(in))
+		w.Classes["family/"+j.Family]++
+		if ok {
+			w.Classes["accepted"]++
+		} else {
+			w.Classes["rejected"]++
+		}
+		ratio := float64(delta) / float64(len(in)+1)
+		w.Max("alloc_bytes_per_input_byte/"+j.Family, ratio)
+		w.Max("alloc_over_bound/"+j.Family, float64(delta)/float64(bound))
+		if escaped != "" {
+			w.Report(iso.Finding{Index: i, Sig: "C07/panic-escaped", What: "panic escaped hsms.Parse: " + escaped, Family: j.Family})
+		}
+		if delta > bound {
+			w.Report(iso.Finding{Index: i, Sig: "C07/alloc-superlinear/" + j.Family,
+				What: fmt.Sprintf("TotalAlloc delta %d bytes for a %d-byte input (bound %d = 1MiB+2048*len)", delta, len(in), bound), Family: j.Family})
+		}
+		w.End(i)
+	}
+}
